@@ -188,7 +188,10 @@ fn check_one_on(v: &[u32], vec0: Vector<u32>, d: &VectorDiff<u32>, out: &mut Out
         ($name:expr, $f:expr, $U:ty) => {{
             let f = $f;
             let mapped_vec: Vector<$U> = v.iter().copied().map(&f).collect();
-            let mapped_diff: VectorDiff<$U> = d.clone().map(&f);
+            let mapped_diff: VectorDiff<$U> = match catch_unwind(AssertUnwindSafe(|| d.clone().map(&f))) {
+                Ok(x) => x,
+                Err(_) => return fail(out, format!("mapping {}: VectorDiff::map itself panicked: {}", $name, last_panic())),
+            };
             let lhs = catch_unwind(AssertUnwindSafe(move || {
                 let mut w = mapped_vec;
                 mapped_diff.apply(&mut w);
@@ -210,6 +213,14 @@ fn check_one_on(v: &[u32], vec0: Vector<u32>, d: &VectorDiff<u32>, out: &mut Out
     commute!("2v+1", |x: u32| 2 * x + 1, u32);
     commute!("v%2", |x: u32| x % 2, u32);
     commute!("to_string", |x: u32| format!("s{x}"), String);
+    // element types of other sizes: zero-sized, one byte, 72 bytes, 4800 bytes (the last only for short vectors)
+    commute!("unit", |_x: u32| (), ());
+    commute!("low byte", |x: u32| x as u8, u8);
+    commute!("72 bytes", |x: u32| [x as u64; 9], [u64; 9]);
+    if v.len() <= 24 {
+        commute!("4800 bytes", |x: u32| [x as u64 + 1; 600], [u64; 600]);
+        out.ev.count("commutations_checked_with_4800_byte_elements");
+    }
     out.ev.count("commutations_checked");
 }
 
